@@ -168,6 +168,34 @@ for g in GROUPS:
     mk()
 
 
+for g_ in GROUPS:
+    def mk(g=g_):
+        @obligation(f'C03.{g}.batch_of_three', functions=[f'{OPS}:{g}_Mul.forward', f'{OPS}:{g}_Inv.forward', f'{OPS}:{g}_Act.forward', f'{OPS}:{g}_Act4.forward',
+                                                         f'{LT}:{g}Type.Mul', f'{LT}:{g}Type.Inv', f'{LT}:{g}Type.Act'], max_paths=8, timeout=300)
+        def batch3(env):
+            """a batch whose size equals the vector dimension (3): product, inverse and action treat the batch axis as a batch axis - item i of
+            the batched call is the unbatched call on item i (lshape (3,), (3,1), and a single operand against a batch of three)"""
+            op = env.load(OPS); pp = env.load('pypose'); T = env.T
+            Xs = [group_elem(env, g, f'X{i}', qregimes=('generic',)) for i in range(3)]
+            Ys = [group_elem(env, g, f'Y{i}', qregimes=('generic',)) for i in range(3)]
+            Ps = [env.vec(f'p{i}', 3, regimes=('generic',)) for i in range(3)]
+            Hs = [env.vec(f'h{i}', 4, regimes=('generic',)) for i in range(3)]
+            one = lambda Z: lie(pp, g, Z)
+            XB, YB, PB, HB = one(T.stack(Xs, 0)), one(T.stack(Ys, 0)), T.stack(Ps, 0), T.stack(Hs, 0)
+            for nm, full, item in (('X @ Y', lambda: XB @ YB, lambda i: one(Xs[i]) @ one(Ys[i])),
+                                   ('single X @ batch Y', lambda: one(Xs[0]) @ YB, lambda i: one(Xs[0]) @ one(Ys[i])),
+                                   ('batch X @ single Y', lambda: XB @ one(Ys[0]), lambda i: one(Xs[i]) @ one(Ys[0])),
+                                   ('Inv', lambda: XB.Inv(), lambda i: one(Xs[i]).Inv()),
+                                   ('Act on 3-vectors', lambda: XB.Act(PB), lambda i: one(Xs[i]).Act(Ps[i])),
+                                   ('single X on three 3-vectors', lambda: one(Xs[0]).Act(PB), lambda i: one(Xs[0]).Act(Ps[i])),
+                                   ('Act on 4-vectors', lambda: XB.Act(HB), lambda i: one(Xs[i]).Act(Hs[i]))):
+                out = raw(full())
+                env.eq(f'{nm}: item i of the batched call is the unbatched call on item i', out, T.stack([raw(item(i)) for i in range(3)], 0))
+            out = raw(one(T.stack(Xs, 0).unsqueeze(1)) @ one(T.stack(Ys, 0).unsqueeze(1)))
+            env.eq('X @ Y with lshape (3, 1)', out.reshape(3, -1), T.stack([raw(one(Xs[i]) @ one(Ys[i])) for i in range(3)], 0))
+    mk()
+
+
 # ---- canary: a deliberately wrong spec must be refuted by the same pipeline
 @obligation('C03.canary.wrong_order', functions=[f'{OPS}:SE3_Mul.forward'], canary=True)
 def canary(env):
